@@ -280,3 +280,74 @@ func vGoroutineDump() string {
 	n := runtime.Stack(buf, true)
 	return string(buf[:n])
 }
+
+// vLiveCard is an endless in-memory Lancero card: a sampling phase of well-formed empty frames, then a run phase
+// that adds a few patterned frames on every read (the reader's 50 ms tick is the clock).
+type vLiveCard struct {
+	mu        sync.Mutex
+	cols      int
+	rows      int
+	collStart int
+	frames    int
+	buf       []byte
+	period    time.Duration
+	t0        time.Time
+}
+
+func (k *vLiveCard) ChangeRingBuffer(int, int) error              { return nil }
+func (k *vLiveCard) Close() error                                   { return nil }
+func (k *vLiveCard) StartAdapter(int, int) error                    { return nil }
+func (k *vLiveCard) StopAdapter() error                             { return nil }
+func (k *vLiveCard) CollectorConfigure(int, int, uint32, int) error { return nil }
+func (k *vLiveCard) StopCollector() error                           { return nil }
+func (k *vLiveCard) InspectAdapter() uint32                         { return 0 }
+func (k *vLiveCard) Wait() (time.Time, time.Duration, error)        { return time.Now(), 0, nil }
+func (k *vLiveCard) StartCollector(bool) error {
+	k.mu.Lock()
+	k.collStart++
+	k.buf = nil
+	k.mu.Unlock()
+	return nil
+}
+func (k *vLiveCard) frame(f int, pattern bool) []byte {
+	b := make([]byte, 0, 4*k.cols*k.rows)
+	for r := 0; r < k.rows; r++ {
+		for c := 0; c < k.cols; c++ {
+			var e, fb uint16
+			if pattern {
+				e = uint16((f*7 + r*3 + c) % 50)
+				fb = uint16(1000*(r+1)+(f%200)*4) &^ 3
+				if f%97 == 5 && r == 1 {
+					fb |= 2 // external trigger now and then
+				}
+			}
+			if r == 0 {
+				fb |= 1
+			}
+			b = append(b, byte(e), byte(e>>8), byte(fb), byte(fb>>8))
+		}
+	}
+	return b
+}
+func (k *vLiveCard) AvailableBuffer() ([]byte, time.Time, error) {
+	k.mu.Lock()
+	defer k.mu.Unlock()
+	n, pattern := 32, false
+	if k.collStart >= 2 && k.collStart%2 == 0 {
+		n, pattern = 8, true
+	}
+	for i := 0; i < n; i++ {
+		k.buf = append(k.buf, k.frame(k.frames, pattern)...)
+		k.frames++
+	}
+	return append([]byte(nil), k.buf...), k.t0.Add(time.Duration(k.frames) * k.period), nil
+}
+func (k *vLiveCard) ReleaseBytes(n int) error {
+	k.mu.Lock()
+	defer k.mu.Unlock()
+	if n > len(k.buf) {
+		n = len(k.buf)
+	}
+	k.buf = k.buf[n:]
+	return nil
+}
